@@ -29,6 +29,30 @@ def obj (args : List String) : String :=
     match objByName n with
     | some o => s!"OK {csv (leftAfterReinit o (uncsv dirty))}"
     | none => "BADARG"
+  | ["NET", n, entries] =>
+    -- fields a run made of calls of these entry points may leave changed (struct order)
+    match objByName n with
+    | some o => s!"OK {csv (netFields o (uncsv entries))}"
+    | none => "BADARG"
+  | ["NETKIND", n, tag] =>
+    -- the same for the run kinds of the check: T/X tree runs, F flow-style, N node-wise, P one parse
+    match objByName n with
+    | some o =>
+      let k := if tag == "T" then encTreeRunW else if tag == "X" then encTreeRunX
+               else if tag == "F" then encFlowRun else if tag == "N" then encNodeRun
+               else if tag == "P" then ["wbxml_parser_parse"] else []
+      s!"OK {csv (netFields o k)}"
+    | none => "BADARG"
+  | ["KINDS", n] =>
+    -- the encoder's run kinds: user fields (settings, sticky) each may leave changed; re-apply needed?
+    match objByName n with
+    | some o =>
+      let b := fun (x : Bool) => if x then "T" else "F"
+      let user := settings o ++ stickyList o
+      let one := fun (tag : String) (k : List String) =>
+        s!"{tag}={csv ((netFields o k).filter user.contains)}:{b (reapplyAfter o k)}"
+      s!"OK {one "T" encTreeRunW} {one "X" encTreeRunX} {one "F" encFlowRun} {one "N" encNodeRun}"
+    | none => "BADARG"
   | ["WRITERS", n, f] =>
     match objByName n with
     | some o => s!"OK {csv (writers o f)}"
